@@ -383,10 +383,6 @@ class LazyIndexer:
                 segm_size = len(range(start, stop, stride))
                 selection.append([(slice(start, stop, stride), slice(None), slice(0, segm_size, 1))])
                 segment_sizes.append([segm_size])
-            elif len(dim_keep) == 0:
-                # If selection is empty, pass to post-selector, as HDF5 datasets do not support zero-length selection
-                selection.append([(slice(0, 1, 1), slice(0, 0, 1), slice(0, 0, 1))])
-                segment_sizes.append([0])
             else:
                 # Anything else is advanced indexing via bool or integer sequences
                 dim_keep = np.atleast_1d(dim_keep)
@@ -395,6 +391,12 @@ class LazyIndexer:
                     dim_keep = np.nonzero(dim_keep)[0]
                 elif np.any(np.diff(dim_keep) <= 0):
                     raise TypeError('LazyIndexer cannot handle duplicate or unsorted advanced integer indices')
+                if len(dim_keep) == 0:
+                    # If selection is empty (empty sequence or all-False mask), pass to post-selector,
+                    # as HDF5 datasets do not support zero-length selection
+                    selection.append([(slice(0, 1, 1), slice(0, 0, 1), slice(0, 0, 1))])
+                    segment_sizes.append([0])
+                    continue
                 # Split indices into multiple contiguous segments (specified by first and one-past-last data indices)
                 jumps = np.nonzero(np.diff(dim_keep) > 1)[0]
                 first = [dim_keep[0]] + dim_keep[jumps + 1].tolist()
